@@ -19,6 +19,7 @@ MATHS = ['data.TexMathModeEnv', 'data.TexDisplayMathModeEnv', 'data.TexMathEnv',
 ENVS = GROUPS + MATHS + ['data.TexNamedEnv']
 
 # constructors of the subclasses are executed by inlining their real bodies down to TexExpr.__init__
+REG.inline.add('data.TexExpr._as_content')
 for _q in ('data.TexEnv.__init__', 'data.TexNamedEnv.__init__', 'data.TexUnNamedEnv.__init__', 'data.TexGroup.__init__',
            'data.TexEnv.begin', 'data.TexEnv.end', 'data.TexNamedEnv.begin', 'data.TexNamedEnv.end',
            'data.TexExpr._supports_contents', 'data.TexExpr._assert_supports_contents',
@@ -135,12 +136,6 @@ def list_builtin_hook(eng, what, payload, st):
 
 REG.attr_hooks.append(list_builtin_hook)
 
-# until the C18 block verifies the TexArgs bodies these contracts are assumptions (listed in the evidence)
-for _q in ('data.TexArgs.__init__', 'data.TexArgs.append', 'data.TexArgs.__getitem__', 'data.TexArgs.__str__'):
-    for _c in REG.contracts[_q]:
-        _c.trusted = True
-        _c.note = 'assumed: TexArgs body not yet verified'
-
 # ---------------------------------------------------------------------- serialisers: __str__ == ser on the current fields
 _SA = 'SL(self.args.items)'
 _SC = 'SL(self.contents)'
@@ -177,6 +172,8 @@ def map_hook(eng, what, payload, st):
         recv, arg, node = payload
         if arg.ty == 'comp' and ast.unparse(arg.a['elt']) == 'str(%s)' % arg.a['var']:
             it = arg.a['iter']
+            if it.ty == 'obj' and 'items' in st.heap.get(it.a['ref'], {}):
+                it = st.heap[it.a['ref']]['items']          # iterating a TexArgs yields its list elements
             try:
                 xs = as_eseq(it)
             except Unsupported:
@@ -211,6 +208,7 @@ REG.ctors['data.TexText'] = ctor_TexText
 for _cls in ['data.TexCmd'] + ENVS + ['data.TexEnv', 'data.TexExpr']:
     REG.add(Contract('data.TexExpr.append', case=_cls.split('.')[1],
                      types={'self': 'UExpr:' + _cls, 'exprs': 'elist'}, modifies=['self.contents'],
+                     requires=[A('no-raw-plain-strings', 'noplain(eseq(exprs))')],
                      raises={'TypeError': Raises('iscmd(self) and self.name != "item"',
                                                  ensures=[A('unchanged', 'self.contents == old(self.contents)')])},
                      ensures=[P(['C05', 'C15'], 'appended', 'self.contents == concat(old(self.contents), eseq(exprs))')]))
@@ -241,12 +239,12 @@ def head_unfold(eng, st, b, pre):
 
 
 HEAD_HOOKS = []
-for _c in REG.contracts['data.TexArgs.__getitem__']:
-    _c.hooks.append(head_unfold)
 
 
 def concat_facts(st, old, add, new):
     """fold instances for new == old ++ add"""
+    from .tree import NP
+    st.fact(NP(new) == And(NP(old), NP(add)))
     st.fact(SL(new) == Concat(SL(old), SL(add)))
     st.fact(NW(SL(new)) == Concat(NW(SL(old)), NW(SL(add))))
     st.fact(TL(new) == And(TL(old), TL(add)))
@@ -320,18 +318,21 @@ for _cls in ['data.TexCmd'] + ENVS + ['data.TexEnv', 'data.TexExpr']:
     REG.add(Contract(
         'data.TexExpr.insert', case=_short, types={'self': 'UExpr:' + _cls, 'i': 'int', 'exprs': 'elist'},
         modifies=['self.contents'], props=['C05', 'C15'],
-        requires=[A('index-in-range', '0 <= i and i <= len(self.contents)')],
+        requires=[A('index-in-range', '0 <= i and i <= len(self.contents)'),
+                  A('no-raw-plain-strings', 'noplain(eseq(exprs))')],
         raises={'TypeError': Raises('iscmd(self) and self.name != "item"',
                                     ensures=[A('unchanged', 'self.contents == old(self.contents)')])},
         ensures=[P(['C05', 'C15'], 'spliced-in-at-the-index',
                    'self.contents == concat(old(self.contents)[:i], eseq(exprs), old(self.contents)[i:])')],
-        loops={0: Loop(invariant=[A('prefix-inserted', 'self.contents == concat(old(self.contents)[:i], eseq(exprs)[:_k], '
-                                                       'old(self.contents)[i:])'),
+        loops={0: Loop(invariant=[A('length', 'len(self.contents) == len(old(self.contents)) + _k'),
+                                  A('before', 'self.contents[:i] == old(self.contents)[:i]'),
+                                  A('inserted', 'self.contents[i:i + _k] == eseq(exprs)[:_k]'),
+                                  A('after', 'self.contents[i + _k:] == old(self.contents)[i:]'),
                                   A('bound', '_k <= len(eseq(exprs))')],
                        modifies=['self.contents'])}))
-    _targeted = P(['C05', 'C15'], 'removes-the-given-occurrence',
-                  'forall(k, 0, len(old(self.contents)), implies(old(self.contents)[k] == expr, '
-                  'result == k and self.contents == concat(old(self.contents)[:k], old(self.contents)[k + 1:])))')
+    _targeted = P(['C05', 'C15'], 'removes-the-given-object',
+                  'old(self.contents)[result] == expr and '
+                  'self.contents == concat(old(self.contents)[:result], old(self.contents)[result + 1:])')
     REG.add(Contract(
         'data.TexExpr.remove', case=_short, types={'self': 'UExpr:' + _cls, 'expr': 'E'}, result='int',
         modifies=['self.contents'], props=['C05', 'C15'],
@@ -357,3 +358,25 @@ def _occurs(ctx, xs, e):
     ctx.st.fact(Implies(OCC(xs.z, e.z), And(0 <= w, w < Length(xs.z), xs.z[w] == e.z)))
     ctx.engine.touch(ctx.st, w)
     return VB(OCC(xs.z, e.z))
+
+
+def insert_loop_lemmas(eng, what, payload, st):
+    """sequence-theory facts about `lst.insert(i + j, x)` inside TexExpr.insert's loop (valid for 0 <= i <= i+j <= |S|;
+    supplied because neither solver derives slice-of-insert facts within its budget)"""
+    if what != 'inserted' or eng.cur is None or eng.cur.qual != 'data.TexExpr.insert':
+        return None
+    from pyvc.sorts import pyslice
+    S, ii, x, new, el = payload
+    i = st.env.get('i')
+    k = st.ghost.get('_k')
+    if i is None or k is None or i.ty != 'int':
+        return None
+    iz, kz, n = i.z, k.z, Length(S)
+    ok = And(0 <= iz, 0 <= kz, iz + kz <= n, ii == iz + kz)
+    st.fact(Implies(ok, And(pyslice(new, None, iz) == pyslice(S, None, iz),
+                            pyslice(new, iz, iz + kz + 1) == Concat(pyslice(S, iz, iz + kz), Unit(x)),
+                            pyslice(new, iz + kz + 1, None) == pyslice(S, iz + kz, None))))
+    return None
+
+
+REG.attr_hooks.append(insert_loop_lemmas)
